@@ -544,6 +544,7 @@ fn models(tier: Tier) -> Vec<(String, Arc<M>, Vec<Plan>)> {
 
 pub fn run(tier: Tier) -> Report {
     let mut rep = Report::new();
+    crate::realx::run_for(&mut rep, "C19", tier.is_quick());
     if let Err(e) = glue_fingerprint() {
         rep.machinery_errors.push(e);
         return rep;
@@ -571,6 +572,9 @@ pub fn run(tier: Tier) -> Report {
 }
 
 pub fn replay(v: &Value) -> Result<(), String> {
+    if let Some(r) = crate::realx::replay_for("C19", v) {
+        return r;
+    }
     if v["exploration"] == "parser" {
         return match v["text"].as_str() {
             Some(t) => judge_text(t).map_err(|f| format!("[{}] {}", f.key, f.msg)),
